@@ -138,6 +138,16 @@ C13_EqualChargeExchange(c) ==
      LET a == AG(c)
          same(p, q) == (p <= c.nf /\ q <= c.nf) => \A k \in DOMAIN a : a[k][p] = a[k][q] /\ a[k][-p] = a[k][-q]
      IN /\ same(3, 5) /\ same(4, 6) /\ (c.Z = c.A => (same(1, 3) /\ same(2, 4)))
+\* a flavour-tagged observable on the massless path (F2_charm above the bottom threshold, ...): the quarks other than the tagged
+\* one enter through the flavour-blind pure-singlet / valence / gluon channels only - ALL active spectators have the same rows
+\* (whatever their charge), inactive ones none
+TaggedMassless(c) == c.fns = "ZM-VFNS" /\ c.fam = "heavy" /\ c.hq \in 4..6 /\ c.hq <= c.nf
+Spectators(c) == {q \in 1..c.nf : q # c.hq}
+C13_TaggedSpectators(c) ==
+  (c.ew.proc # "CC" /\ c.ew.pos = 0 /\ TaggedMassless(c) /\ Supported(c)) =>
+     LET a == AG(c) IN
+     /\ \A p \in Spectators(c), q \in Spectators(c) : \A k \in DOMAIN a : a[k][p] = a[k][q] /\ a[k][-p] = a[k][-q]
+     /\ \A q \in (c.nf + 1)..6 : \A k \in DOMAIN a : RIsZero(a[k][q]) /\ RIsZero(a[k][-q])
 
 \* ------------------------------------------------------------------ C06  flavour number (assembly side)
 \* two threshold settings with the same count give the same assembly: Collect depends on the
